@@ -17,8 +17,12 @@ RULE = ("cases: a real worker thread (sozu_lib::server::Server::run) driven over
         "without request_type) x a selector k that picks the target from colliding pools of 3 clusters / 3 addresses / 3 "
         "hostnames and, for k>=6, an invalid value (empty hostname, unparsable certificate, unknown listener type, bad "
         "health-check uri, out-of-range enum); sequences are fresh, after a bootstrap of listeners+clusters, with duplicates; "
-        "each request is followed by a Status barrier and the responses carrying its id are counted; a case ends with a "
-        "cluster-hash comparison against the main process' ConfigState and a soft/hard stop. Non-trivial and distinct: >=10 "
+        "each request is followed by a Status barrier and the responses carrying its id are counted; behaviour probes: "
+        "after every listener verb a TCP connect on each listener address (activated <=> accepts, else refused), after "
+        "frontend/backend/cluster verbs on an activated HTTP listener one GET per known hostname through the worker to "
+        "scripted backends (the backend that answers, or 404/503, must be allowed by the main process' ConfigState); "
+        "listener life cycles Add/Activate/Deactivate/Activate/Remove/Add per listener type; cluster-hash comparisons "
+        "against the main process' ConfigState; soft/hard and overlapping stops. Non-trivial and distinct: >=10 "
         "requests over >=6 distinct verbs including at least one listener verb and one invalid or unknown-target request.")
 ASSUMPTIONS = [
     "each proxy's notify returns exactly one WorkerResponse (its Rust return type); it is a final status (OK or failure) except for SoftStop/HardStop, where the proxies answer Processing — observed by the black-box run, an oracle in the model",
@@ -37,8 +41,12 @@ LEVEL_TEXT = ("Machine-checked proof (Coq 8.16) over an executable model of the 
               "the property's oracle (one final answer, worker alive, cluster hashes equal to the main process' state, stops complete).")
 LEVEL_NOTE = ("Partial: what is proved is the control flow around the proxies. The status of each answer, each proxy's own notify "
               "(one response by its return type; Processing only for the stop verbs is an assumption checked by the black-box run) and the "
-              "live routing/listening behaviour are observed only: view comparison = cluster hashes of QueryClustersHashes vs "
-              "ConfigState::hash_state of the same sequence; no connect probes. ConfigState::dispatch itself is C05-C07's subject; here it is "
+              "live routing/listening behaviour are observed only: cluster hashes of QueryClustersHashes vs ConfigState::hash_state of the "
+              "same sequence, TCP connect probes on every listener address after every listener verb, HTTP GET probes through an "
+              "activated HTTP listener to scripted backends (prediction: longest matching prefix frontend of the main process' state, "
+              "its cluster's backends); HTTPS/TCP/UDP data paths are not probed. Probes stop claiming anything about an address or about "
+              "routing once the main process and the worker disagree on a request's acceptance (the main process would not have "
+              "forwarded it, or would have told its client about the failure) or after ReturnListenSockets. ConfigState::dispatch itself is C05-C07's subject; here it is "
               "an abstract function shared by both sides. Two SoftStop requests: the second overwrites shutting_down, the first never gets its "
               "final answer (at most one final holds; seen in the model, not driven).")
 TECHNIQUE = "Rocq/Coq proof over a generated arms table + black-box differential run against a real worker thread"
@@ -407,6 +415,18 @@ def translate():
     rl = [b for pt, b in top_arms(m3) if "RemoveListener" in pt]
     if not rl or not re.search(r"if applied_to_state \{.*?self\.base_sessions_count -= 1;\s*\}", rl[0], re.S):
         fails.append("notify_proxys: RemoveListener no longer lowers base_sessions_count only when the state knew the listener")
+    # the slot a configured listener owns: taken by Add*Listener, kept by Deactivate, freed by RemoveListener
+    dl, _ = block_after(srv, r"fn notify_deactivate_listener\(", "notify_deactivate_listener", fails)
+    deactivate_frees = bool(re.search(r"slab\s*\.remove\(", dl))
+    remove_frees = bool(rl and re.search(r"if applied_to_state \{\s*if let Some\(token\) = self\.listener_slots\.remove\(&slot_key\) \{\s*let mut sessions = self\.sessions\.borrow_mut\(\);\s*if sessions\.slab\.contains\(token\.0\) \{\s*sessions\.slab\.remove\(token\.0\);", rl[0]))
+    for fn, kind in (("notify_add_http_listener", "Http"), ("notify_add_https_listener", "Https"), ("notify_add_tcp_listener", "Tcp"), ("notify_add_udp_listener", "Udp")):
+        b, _ = block_after(srv, r"fn %s\(" % fn, fn, fails)
+        if not re.search(r"entry\.insert\(Rc::new\(RefCell::new\(ListenSession \{", b) or \
+           (remove_frees and not re.search(r"self\.listener_slots\s*\.insert\(\(ListenerType::%s as i32, listener_address\), token\);" % kind, b)):
+            fails.append("%s: no longer takes one slab slot and records it in listener_slots" % fn)
+    al, _ = block_after(srv, r"fn notify_activate_listener\(", "notify_activate_listener", fails)
+    if len(re.findall(r"\.activate_listener\(", al)) != 4 or len(re.findall(r"self\.accept\(ListenToken\(token\.0\), Protocol::(?:HTTP|HTTPS|TCP)Listen\);", al)) != 3:
+        fails.append("notify_activate_listener: the four protocols no longer activate their listener (and accept on it)")
     sd, _ = block_after(srv, r"fn shut_down_sessions\(&mut self\) -> bool\s*\{", "shut_down_sessions", fails)
     if not re.search(r"if new_sessions_count <= listen_slots \{", sd) or re.search(r"<=\s*self\.base_sessions_count", sd):
         fails.append("shut_down_sessions: completion is no longer tested against the listen slots counted from the slab")
@@ -438,12 +458,15 @@ def translate():
             "From Coq Require Import List String Bool Arith.\nFrom SV Require Import C08.Base.\nImport ListNotations.\nOpen Scope string_scope.\n\n"
             "Definition fallback_answers : bool := %s.\n"
             "Definition second_soft_stop_refused : bool := %s.\n"
-            "Definition hard_stop_answers_soft : bool := %s.\n\n"
+            "Definition hard_stop_answers_soft : bool := %s.\n"
+            "Definition deactivate_frees_slot : bool := %s.\n"
+            "Definition remove_frees_slot : bool := %s.\n\n"
             "(* variants ConfigState::dispatch accepts without touching the state *)\n"
             "Definition state_noop : list string := [%s].\n\n"
             "Definition arms_table : list arm_row := [\n%s\n].\n"
             % (SERVER, REQUEST, "true" if fallback else "false", "true" if flags["second_soft_stop_refused"] else "false",
-               "true" if flags["hard_stop_answers_soft"] else "false", "; ".join('"%s"' % v for v in noop), ";\n".join(rows)))
+               "true" if flags["hard_stop_answers_soft"] else "false", "true" if deactivate_frees else "false",
+               "true" if remove_frees else "false", "; ".join('"%s"' % v for v in noop), ";\n".join(rows)))
     vlib.write_if_changed(os.path.join(vlib.COQ, "C08", "Gen.v"), text)
     return fails
 
@@ -479,6 +502,8 @@ def gen_case(rng, cid, i):
         ops.append(["send", v, k])
         if rng.random() < 0.15:
             ops.append(["send", v, k])          # duplicate
+        if v in ("SetHealthCheck", "RemoveHealthCheck", "AddCluster", "RemoveCluster") and rng.random() < 0.5:
+            ops.append(["view"])
     ops.append(["view"])
     r = rng.random()
     if r < 0.2:
@@ -495,9 +520,35 @@ def gen_case(rng, cid, i):
     return Case(cid, ops, {})
 
 
+def lifecycle_cases():
+    """Add / Activate / Deactivate / Activate / Remove / Add / Activate on every TCP-based listener type (a
+    connect probe follows every listener verb), health checks followed by view comparisons"""
+    out = []
+    for k, add in ((0, "AddHttpListener"), (1, "AddHttpsListener"), (2, "AddTcpListener")):
+        ops = [["worker"], ["send", add, 0], ["send", "ActivateListener", k], ["send", "DeactivateListener", k],
+               ["send", "ActivateListener", k], ["send", "DeactivateListener", k], ["send", "ActivateListener", k],
+               ["send", "RemoveListener", k], ["send", add, 0], ["send", "ActivateListener", k]]
+        if k == 0:
+            ops += [["send", "AddCluster", 0], ["send", "AddBackend", 0], ["send", "AddHttpFrontend", 0],
+                    ["send", "DeactivateListener", 0], ["send", "ActivateListener", 0], ["send", "AddBackend", 1],
+                    ["send", "RemoveBackend", 0], ["send", "RemoveHttpFrontend", 0]]
+        ops += [["view"], ["stop", "soft"], ["end"]]
+        out.append(Case("life%d" % k, ops, {}))
+    ops = [["worker"], ["send", "AddUdpListener", 0], ["send", "AddUdpListener", 0], ["send", "RemoveListener", 3], ["send", "AddUdpListener", 0], ["view"], ["end"]]
+    out.append(Case("life3", ops, {}))
+    hc = [["worker"]]
+    for k in (0, 3, 6, 1, 4, 7):
+        hc += [["send", "AddCluster", k], ["view"]]
+    for k in (0, 6, 1):
+        hc += [["send", "SetHealthCheck", k], ["view"], ["send", "QueryClusterById", k], ["send", "RemoveHealthCheck", k], ["view"]]
+    hc += [["end"]]
+    out.append(Case("health", hc, {}))
+    return out
+
+
 def gen_cases(rng, tier):
     n = {"quick": 400, "thorough": 6000, "search": 600}.get(tier, 400)
-    out = []
+    out = lifecycle_cases()
     # every verb x every selector at least once, fresh and after bootstrap
     allv = WORKER_VERBS + UNSERVED
     for b in (0, 1):
